@@ -36,7 +36,7 @@
 *)
 From ASModel Require Import Base State Orderings_gen Step Run Progress Hist Local Inv InvTl InvProto InvStep Sum StepCases.
 From ASModel Require Import GenDefs Gen1 Gen2 Gen EnvDefs Env4 Env AccDefs Acc1 Acc2 Acc3 Acc4 Acc5 Acc6 Acc7 Acc.
-From ASModel Require Import ProtDefs Prot1 Prot11 Prot16 Prot Typed LinDefs Lin2 Lin Safe1 Safe2 Safe7 Safe8 Safe Main.
+From ASModel Require Import ProtDefs Prot1 Prot11 Prot16 Prot Typed LinDefs Lin2 Lin Safe1 Safe2 Safe7 Safe8 Safe Main RunOKEx.
 
 Theorem C01_dec : forall s a,
   match heap s a with
@@ -122,7 +122,18 @@ Print Assumptions C01_pay_inc.
 Print Assumptions C01_walk_next_slot.
 Print Assumptions C01_walk_last_slot.
 Print Assumptions C01_walk_next_node.
+(** Non-vacuity: the hypotheses [RunOK] are satisfiable by a concrete concurrent run in which a
+    reader on the fallback path is helped by a writer (80 steps, both threads run to their end);
+    the theorem applies to it. *)
+Theorem C01_scope_inhabited : RunOK ex_cf ex_inits ex_progs ex_sched.
+Proof. exact RunOK_example. Qed.
+
+Theorem C01_example_no_fault : NoFault (run_state ex_cf (init_state ex_inits ex_progs) ex_sched).
+Proof. exact (proj1 (Main.C01_no_use_after_free _ _ _ _ RunOK_example)). Qed.
+
 Print Assumptions C01_no_use_after_free.
+Print Assumptions C01_scope_inhabited.
+Print Assumptions C01_example_no_fault.
 Print Assumptions C01_no_fault_events.
 Print Assumptions C01_no_dead_access.
 Print Assumptions C01_master_invariant.
